@@ -170,6 +170,27 @@ def exec_c17(cfg, devs):
         if exc_at == len(prog):
             raise _Boom('body')
 
+    def two_flights(obj, prims):
+        """take_off, program, land - twice on the same helper object; the first flight is put aside and judged on its own."""
+        obj.take_off()
+        info['flying_from'] = len(rec.cmds)
+        try:
+            body(obj, prims)
+        finally:
+            obj.land()
+        ex.s.sleep(0.5, 'between.flights')
+        info['flight1'] = {'cmds': list(rec.cmds), 'marks': list(info['marks']), 'positions': list(info['positions']),
+                           'end_index': len(rec.cmds), 'result': 'returned', 'flying_from': info['flying_from']}
+        del rec.cmds[:]
+        del info['marks'][:]
+        del info['positions'][:]
+        obj.take_off()
+        info['flying_from'] = len(rec.cmds)
+        try:
+            body(obj, prims)
+        finally:
+            obj.land()
+
     def main():
         if cfg['kind'] == 'mc':
             mc = MotionCommander(rec)
@@ -178,6 +199,8 @@ def exec_c17(cfg, devs):
                     with mc:
                         info['flying_from'] = len(rec.cmds)
                         body(mc, MC_PRIMS)
+                elif cfg['form'] == 'twice':
+                    two_flights(mc, MC_PRIMS)
                 else:
                     mc.take_off()
                     info['flying_from'] = len(rec.cmds)
@@ -197,6 +220,8 @@ def exec_c17(cfg, devs):
                     with pc:
                         info['flying_from'] = len(rec.cmds)
                         body(pc, HL_PRIMS)
+                elif cfg['form'] == 'twice':
+                    two_flights(pc, HL_PRIMS)
                 else:
                     pc.take_off()
                     info['flying_from'] = len(rec.cmds)
@@ -223,20 +248,32 @@ def exec_c17(cfg, devs):
         ex.run(main)
     finally:
         mcm._SetPointThread.set_vel_setpoint = orig_set
-    if cfg['kind'] == 'mc':
-        _judge_mc(p, cfg, devs, ex, rec, info)
+    judge = _judge_mc if cfg['kind'] == 'mc' else _judge_hl
+    if cfg['form'] == 'twice' and 'flight1' in info:
+        # the first flight: what is in the record when the second take-off begins (streaming that leaks into the pause
+        # between the flights shows as commands after its stop)
+        f1 = info['flight1']
+        st = judge(p, cfg, devs, ex, _View(f1['cmds']), f1, tag=':flight1_of_2')
+        judge(p, cfg, devs, ex, rec, info, tag=':flight2_of_2', start=st, count_case=False)
     else:
-        _judge_hl(p, cfg, devs, ex, rec, info)
+        judge(p, cfg, devs, ex, rec, info)
     return p, ex.ch.ns, ex.ch.labels
 
 
-def _common(p, cfg, devs, ex, rec, info):
+class _View:
+    def __init__(self, cmds):
+        self.cmds = cmds
+
+
+def _common(p, cfg, devs, ex, rec, info, tag='', count_case=True):
     rp = {'cfg': cfg, 'devs': list(devs)}
     cname = cfg['name']
 
     def viol(clause, what):
-        p.violation('flight:%s:%s' % (cfg['kind'], clause), '%s devs=%r: %s' % (cname, devs, what), rp)
+        p.violation('flight:%s:%s%s' % (cfg['kind'], clause, tag), '%s devs=%r%s: %s' % (cname, devs, tag, what), rp)
     kinds = [c[1] for c in rec.cmds]
+    if not count_case:
+        return viol, ex.s.status == 'ok' and not ex.s.died
     p.case(key=(cname, tuple(devs)), nontrivial=bool(devs) or len(cfg['prog']) > 0,
            outcome=(ex.s.status, info.get('result'), tuple(kinds[-3:]), len(kinds)),
            sample={'program': cfg['prog'], 'form': cfg['form'], 'exception_at': cfg.get('exc_at'), 'result': info.get('result'),
@@ -251,8 +288,8 @@ def _common(p, cfg, devs, ex, rec, info):
     return viol, ok
 
 
-def _judge_mc(p, cfg, devs, ex, rec, info):
-    viol, ok = _common(p, cfg, devs, ex, rec, info)
+def _judge_mc(p, cfg, devs, ex, rec, info, tag='', start=None, count_case=True):
+    viol, ok = _common(p, cfg, devs, ex, rec, info, tag, count_case)
     if not ok:
         return
     cmds = [c for c in rec.cmds if c[1] != 'setvel']
@@ -277,6 +314,9 @@ def _judge_mc(p, cfg, devs, ex, rec, info):
     # (2) streaming period and height integration (reference = the velocity commands given to the setpoint thread)
     setv = [c for c in rec.cmds if c[1] == 'setvel']
     hov = [c for c in cmds if c[1] == 'hover']
+    if setv and not hov and rec.cmds and rec.cmds[-1][0] - setv[0][0] > UPDATE_PERIOD + 1e-9:
+        viol('stream:no_setpoints', '%s: velocity commands from t=%.3f to t=%.3f and not one hover setpoint was streamed' % (
+            prog_desc, setv[0][0], rec.cmds[-1][0]))
     if hov:
         gaps = [b[0] - a[0] for a, b in zip(hov, hov[1:])]
         if gaps and max(gaps) > UPDATE_PERIOD + 1e-9:
@@ -358,8 +398,8 @@ def _judge_mc(p, cfg, devs, ex, rec, info):
                      '%.4f (want %.4f), turned %.2f deg (want %.1f)' % (prog_desc, name, vx, yr, dur, vx * dur, exp[0], yr * dur, exp[1]))
 
 
-def _judge_hl(p, cfg, devs, ex, rec, info):
-    viol, ok = _common(p, cfg, devs, ex, rec, info)
+def _judge_hl(p, cfg, devs, ex, rec, info, tag='', start=None, count_case=True):
+    viol, ok = _common(p, cfg, devs, ex, rec, info, tag, count_case)
     if not ok:
         return
     cmds = [c for c in rec.cmds if c[1] != 'param']
@@ -381,6 +421,9 @@ def _judge_hl(p, cfg, devs, ex, rec, info):
     # (4) position bookkeeping and go-to commands
     x, y, z = 1.0, -2.0, 0.5          # after take-off to the default height
     vel, height = 0.5, 0.5
+    if start is not None:             # a later flight of the same object: where the previous one ended, defaults as left
+        x, y, vel, height = start
+        z = height
     gotos = [c for c in cmds if c[1] == 'hl.go_to']
     gi = 0
     pi = 0
@@ -421,6 +464,7 @@ def _judge_hl(p, cfg, devs, ex, rec, info):
             break
     if gi != len(gotos):
         viol('goto:extra', '%s: %d go-to commands, %d expected' % (prog_desc, len(gotos), gi))
+    return (x, y, vel, height)
 
 
 def _programs(prims, maxlen, singles_only_exc=True):
@@ -437,10 +481,14 @@ def configs(quick):
     maxlen = 2 if quick else 3
     for kind, prims in (('mc', MC_PRIMS), ('hl', HL_PRIMS)):
         for prog in _programs(prims, maxlen):
-            for form in ('with', 'explicit'):
+            for form in ('with', 'explicit', 'twice'):
                 if form == 'explicit' and len(prog) > 1:
                     continue
+                if form == 'twice' and len(prog) > (1 if quick else 2):
+                    continue
                 excs = [None] + (list(range(len(prog) + 1)) if len(prog) <= 2 else [len(prog)])
+                if form == 'twice':
+                    excs = [None]
                 for exc_at in excs:
                     out.append({'name': '%s:%s:%s:exc%s' % (kind, form, '+'.join(prog) or '-', exc_at), 'kind': kind, 'form': form,
                                 'prog': prog, 'exc_at': exc_at})
@@ -452,7 +500,8 @@ def run(ck):
     cs = configs(ck.quick)
     ck.rule = ('%d programs: every sequence of up to %d MotionCommander primitives (alphabet of %d) and up to %d '
                'PositionHlCommander primitives (alphabet of %d), context-manager form (explicit take_off/land form for length '
-               '<= 1), with an exception raised at every position of the body (length 3: after the last primitive); programs of '
+               '<= 1; two complete flights with the same program on one helper object for length <= 1, thorough <= 2), with an '
+               'exception raised at every position of the body (length 3: after the last primitive); programs of '
                'length <= 1 explored with every schedule of at most %d deviations, length 2 with %d, length 3 with 1 (setpoint '
                'thread vs commanding thread, ties in virtual time)' % (len(cs), 2 if ck.quick else 3, len(MC_PRIMS),
                                                                        2 if ck.quick else 3, len(HL_PRIMS), 2 if ck.quick else 3,
